@@ -294,7 +294,9 @@ def t_decimalValue(t):
 
 
 simpleEscape = r"""[bfnrt'"\\]"""
-hexEscape = r'[xX][0-9a-fA-F]{1,4}'
+# 1 to 4 hex digits, written so that the number of digits is unambiguous
+# (no exponential regexp backtracking in a literal that is not terminated)
+hexEscape = r'[xX]([0-9a-fA-F]{4}|[0-9a-fA-F]{1,3}(?![0-9a-fA-F]))'
 escapeSequence = fr'[\\](({simpleEscape})|({hexEscape}))'
 cChar = fr"[^'\\\n\r]|({escapeSequence})"
 sChar = fr'[^"\\\n\r]|({escapeSequence})'
